@@ -42,7 +42,7 @@ def check(run, views, tier):
         # the parser fills and the encoder reads (C19's clauses)
         _cr.r_be(run, F)
         _nl = _rr.r_lossy(run, F)
-        run.floor("R-LOSSY", _nl, 13 if _rr.async_on(F) else 12, "lossy text conversions")
+        run.floor("R-LOSSY", _nl, 3, "lossy text conversions")
         _rr.r_readexact(run, F)
         _rr.r_propagate(run, F)
         from ..engine import include as _inc
@@ -54,7 +54,7 @@ def check(run, views, tier):
         run.floor("R-LAYOUT", ne, 20, "loop-free encoder arms")
         run.floor("R-LAYOUT", nd, 19, "decoder arms")
         np_ = cr.r_tagbody_bracket(run, F, T)
-        run.floor("R-TAGBODY", np_, 3, "tag/body pairs in sets and collections")
+        run.floor("R-TAGBODY", np_, 2, "tag/body pairs in sets and collections")
         cr.r_frame(run, F)
         nl = c04.r_linear(run, F)
         run.floor("R-LINEAR", nl, 6, "drop sites of value-holding places in the state machine")
